@@ -935,6 +935,91 @@ func c19Pinned(id int, dir string, lostToSelect bool) c19Case {
 	return c
 }
 
+// REGRESSION scenario (id 2) for the race the repair has to survive: streams that arrive AFTER listener.Close
+// on sessions kept alive by an open conn.  Their accept goroutines find both select cases ready; when the
+// enqueue wins (after Close's drain is over) the goroutine itself must drain, or the conn pins the session.
+func c19Race(id int, dir string) c19Case {
+	t0 := time.Now()
+	c := c19Case{ID: id, Seed: 0, Backlog: 8}
+	x := &c19Run{c: &c, r: newVrand(uint64(id)), oracle: map[string]bool{}, feat: map[string]bool{}, seenSrv: map[*Session]bool{}, dir: dir}
+	path := filepath.Join(dir, fmt.Sprintf("c19_%d_%d.sock", os.Getpid(), id))
+	os.Remove(path)
+	ln, err := ListenWithBacklog(path, 8)
+	if err != nil {
+		c.Skipped = "listen failed: " + err.Error()
+		return c
+	}
+	defer os.Remove(path)
+	x.ln, x.l = ln, ln.(*listener)
+	const nsess = 5
+	for i := 0; i < nsess && c.Skipped == ""; i++ {
+		x.connect()
+		if c.Skipped != "" {
+			break
+		}
+		x.open(i)
+		x.startAccept()
+		x.collect(2 * time.Second)
+	}
+	if c.Skipped == "" && len(x.pending) > 0 {
+		c.Skipped = "setup: Accept did not return"
+	}
+	if c.Skipped != "" {
+		ln.Close()
+		for _, ss := range x.sess {
+			ss.client.Close()
+			ss.server.Close()
+		}
+		return c
+	}
+	x.listenerClose(1)
+	for i := 0; i < nsess; i++ {
+		x.open(i) // arrives after Close: select with both cases ready
+	}
+	time.Sleep(50 * time.Millisecond)
+	for _, ss := range x.sess {
+		for _, st := range ss.streams {
+			x.clientClose(st)
+		}
+	}
+	for _, st := range x.delivered(true) {
+		x.serverClose(st, 1)
+	}
+	c19Wait(1500*time.Millisecond, func() bool {
+		for _, ss := range x.sess {
+			if !ss.server.IsClosed() {
+				return false
+			}
+		}
+		return true
+	})
+	final := make([]bool, len(x.sess))
+	for si, ss := range x.sess {
+		final[si] = ss.server.IsClosed()
+		if !final[si] {
+			x.fail("KNOWN: listener closed, every conn handed out by Accept closed, but a conn that was never delivered (left in the backlog / dropped by the select) pins the server session open")
+			x.feat["undelivered-wrapper"] = true
+		}
+	}
+	x.feat["stream-after-listener-close"] = true
+	x.obs(c19Obs{K: "final", F: final})
+	for _, ss := range x.sess {
+		ss.client.Close()
+		ss.server.Close()
+		for _, st := range ss.streams {
+			c.Pipes = append(c.Pipes, st.up.ev, st.down.ev)
+		}
+	}
+	for k := range x.oracle {
+		c.Oracle = append(c.Oracle, k)
+	}
+	for k := range x.feat {
+		c.Feat = append(c.Feat, k)
+	}
+	c.Ms = time.Since(t0).Milliseconds()
+	return c
+}
+
 func TestVerif_C19(t *testing.T) {
 	seed := uint64(venvInt("VERIF_SEED", 1))
 	n := venvInt("VERIF_N", 40)
@@ -951,7 +1036,8 @@ func TestVerif_C19(t *testing.T) {
 	}
 	emit(c19Pinned(0, dir, false))
 	emit(c19Pinned(1, dir, true))
-	var next int64 = 1
+	emit(c19Race(2, dir))
+	var next int64 = 2
 	var wg sync.WaitGroup
 	for w := 0; w < par; w++ {
 		wg.Add(1)
@@ -959,7 +1045,7 @@ func TestVerif_C19(t *testing.T) {
 			defer wg.Done()
 			for {
 				id := int(atomic.AddInt64(&next, 1))
-				if id >= n+2 {
+				if id >= n+3 {
 					return
 				}
 				emit(c19Scenario(id, seed*1000003+uint64(id), dir))
